@@ -345,8 +345,6 @@ class GridCell:
                 if exp:
                     run.violation("mode_grid", "open_" + mode, "refused:" + cls,
                                   "refused (%s) although the property says it opens" % type(r[1]).__name__)
-                if not isinstance(r[1], (RuntimeError, nixio.exceptions.InvalidFile)):
-                    run.violation("mode_grid", "open_" + mode, "error_class:" + type(r[1]).__name__ + ":" + cls, repr(r[1])[:200])
                 r = None
                 gc.collect()
                 if disk.snapshot() != edited:
